@@ -2,7 +2,7 @@ import MitmVerif.Model.C13
 import MitmVerif.Model.C13_Idna
 import MitmVerif.Model.C13_Nameprep
 import Driver.Proto
-open MitmVerif Driver MitmVerif.C13
+open MitmVerif Driver MitmVerif.C13 MitmVerif.C13.Build
 
 namespace C13Driver
 
@@ -52,7 +52,36 @@ def showHello (h : Hello) : String :=
   "hello c=" ++ showList (h.ciphers.map toString) ++
   " e=" ++ showList (h.extView.map (fun e => toString e.1 ++ ":" ++ showBytes e.2)) ++
   " a=" ++ showList (h.alpn.map showBytes) ++
-  " s=" ++ showList (h.sniCandidates.map (fun c => showBytes c ++ ":" ++ hostBits c ++ ":" ++ hostVerdict c))
+  " s=" ++ showList (h.sniCandidates.map (fun c => showBytes c ++ ":" ++ hostBits c ++ ":" ++ hostVerdict c)) ++
+  -- `ClientHello.sni` itself: `Hello.sni` with the complete `is_valid_host` model (no library answer)
+  " n=" ++ (match h.sni Np.validHostFull with | some nm => "some:" ++ showBytes nm | none => "none")
+
+/-! ### op `build`: the specification-side builder, so that its bytes can be compared with an independent builder's -/
+
+def splitOnStr (s : String) (sep : String) : List String := if s = "nil" then [] else s.splitOn sep
+
+/-- `t/hex` -/
+def parseTyped (s : String) : Option (Nat × Bytes) :=
+  match s.splitOn "/" with
+  | [t, h] => match t.toNat?, hexOr h with | some n, some b => some (n, b) | _, _ => none
+  | _ => none
+
+/-- `s:t/hex,t/hex` | `a:hex,hex` | `o:typ/hex` -/
+def parseBExt (s : String) : Option BExt :=
+  if s.startsWith "s:" then ((s.drop 2).toString.splitOn ",").mapM parseTyped |>.map BExt.sni
+  else if s.startsWith "a:" then ((s.drop 2).toString.splitOn ",").mapM hexOr |>.map BExt.alpn
+  else if s.startsWith "o:" then (parseTyped (s.drop 2).toString).map (fun x => BExt.other x.1 x.2)
+  else none
+
+/-- `none` (no extension block) | `nil` (empty block) | `ext;ext;…` -/
+def parseExts (s : String) : Option (Option (List BExt)) :=
+  if s = "none" then some none
+  else if s = "nil" then some (some [])
+  else ((s.splitOn ";").mapM parseBExt).map some
+
+def cutBy : List Nat → Bytes → List Bytes
+  | [], _ => []
+  | n :: ns, d => d.take n :: cutBy ns (d.drop n)
 
 def showRes : Res Hello → String
   | .incomplete => "incomplete"
@@ -75,6 +104,19 @@ def step (line : String) : String :=
     match flag? d, hexOr h with
     | some dtls, some b => showRes (parse dtls b)
     | _, _ => "bad-op"
+  | ["build", d, ver, rnd, sid, ck, cs, comp, exts, seq, pres, sizes, trail] =>
+    -- a structured hello → wire bytes by `BHello.message` / `fragsOf` + `records` (+ trailing bytes)
+    match flag? d, hexOr ver, hexOr rnd, hexOr sid, hexOr ck, parseCps cs, hexOr comp, parseExts exts, hexOr seq,
+          (splitOnStr pres ",").mapM hexOr, parseCps sizes, hexOr trail with
+    | some dtls, some ver, some rnd, some sid, some ck, some cs, some comp, some exts, some seq, some pres, some sizes, some trail =>
+      let h : BHello := { ver := ver, random := rnd, sid := sid, cookie := ck, ciphers := cs, comp := comp, exts := exts }
+      let pieces : List Bytes :=
+        if dtls && sizes.length > 1 then fragsOf seq (h.body true).length 0 (h.body true) sizes
+        else if dtls then [h.message true seq]
+        else cutBy sizes (h.message false seq)
+      if pieces.length ≠ pres.length then "bad-op"
+      else showBytes (records (pres.zip pieces) ++ trail)
+    | _, _, _, _, _, _, _, _, _, _, _, _ => "bad-op"
   | ["vhost", h] =>
     match hexOr h with
     | some b => hostBits b
